@@ -18,6 +18,7 @@ def allGramQ (N : Nat) : Bool :=
 
 theorem allAtOne_40 : allAtOne 40 = true := by decide +kernel
 theorem allCoeffExact_40 : allCoeffExact 40 = true := by decide +kernel
+theorem allBinomial_40 : allBinomial 40 = true := by decide +kernel
 theorem allGramQ_20 : allGramQ 20 = true := by decide +kernel
 
 end Lentil
